@@ -44,12 +44,48 @@ pub struct Scenario {
     pub only: Option<Fault>,
 }
 
+/// An operation that is meant to succeed and do real work on this tree (a
+/// fault can only turn work into "success without the work" if there is work).
+fn success_step(tree: &TreeSpec, kind: u8, sel: u16, sel2: u16, capi: bool) -> WStep {
+    let files: Vec<B> = tree.entries.iter().filter(|(_, n)| matches!(n, Node::File { .. } | Node::Fifo | Node::Chr)).map(|(p, _)| p.clone()).collect();
+    let links: Vec<B> = tree.entries.iter().filter(|(_, n)| matches!(n, Node::Symlink { .. })).map(|(p, _)| p.clone()).collect();
+    let dirs = tree.dirs();
+    let all = tree.paths();
+    let any = |v: &Vec<B>, s: u16| -> B { if v.is_empty() { B::new("missing") } else { v[pick(s, v.len())].clone() } };
+    let newin = |s: u16, name: &str| -> B { dirs[pick(s, dirs.len())].join(name.as_bytes()) };
+    let op = match kind % 14 {
+        0 => Op::RemoveAll { path: any(&all, sel) },
+        1 => Op::RemoveFile { path: any(&files, sel) },
+        2 => Op::RemoveAll { path: any(&files, sel) },
+        3 => Op::Mkdir { path: newin(sel, "made"), mode: 0o755 },
+        4 => Op::Mkfile { path: newin(sel, "made"), mode: 0o644 },
+        5 => Op::Symlink { path: newin(sel, "made"), target: B::new("a") },
+        6 => Op::Hardlink { path: newin(sel, "made"), target: any(&files, sel2) },
+        7 => Op::CreateFile { path: newin(sel, "made"), flags: libc::O_RDWR | libc::O_EXCL, mode: 0o600 },
+        8 => Op::MkdirAll { path: newin(sel, "made/deeper/deepest"), mode: 0o755 },
+        9 => Op::Rename { src: any(&all, sel), dst: newin(sel2, "moved"), flags: 0 },
+        10 => Op::Resolve { path: any(&all, sel) },
+        11 => Op::Open { path: any(&files, sel), flags: libc::O_RDONLY | libc::O_NONBLOCK },
+        12 => Op::Readlink { path: any(&links, sel) },
+        _ => Op::RemoveAll { path: any(&links, sel) },
+    };
+    WStep::Root { capi: capi && !op.has_nul(), op }
+}
+
 pub fn scenario() -> impl Strategy<Value = Scenario> {
-    (tree_recipe(8), kcfg_any(), prop_oneof![6 => Just(false), 1 => Just(true)], wrecipe(), prop_oneof![2 => Just(false), 1 => Just(true)]).prop_map(|(tr, kcfg, no_symlinks, r, cold)| {
-        let tree = build_tree(&tr);
-        let step = build_wstep(&tree, &r, no_symlinks);
-        Scenario { tree, kcfg, no_symlinks, step, cold, only: None }
-    })
+    (
+        tree_recipe(8),
+        kcfg_any(),
+        prop_oneof![6 => Just(false), 1 => Just(true)],
+        wrecipe(),
+        prop_oneof![5 => Just(false), 1 => Just(true)],
+        (prop_oneof![3 => Just(true), 2 => Just(false)], any::<u8>(), any::<u16>(), any::<u16>(), prop_oneof![3 => Just(false), 1 => Just(true)]),
+    )
+        .prop_map(|(tr, kcfg, no_symlinks, r, cold, (directed, kind, sel, sel2, capi))| {
+            let tree = build_tree(&tr);
+            let step = if directed { success_step(&tree, kind, sel, sel2, capi && !no_symlinks) } else { build_wstep(&tree, &r, no_symlinks) };
+            Scenario { tree, kcfg, no_symlinks, step, cold, only: None }
+        })
 }
 
 #[derive(Clone, Debug, Serialize, Deserialize)]
@@ -383,7 +419,7 @@ fn check_in(sb: &Sandbox, sc: &Scenario, stats: &mut Stats) -> Result<(), Fail> 
 }
 
 fn run_lane(ctx: &Ctx, lr: &mut LaneResult) {
-    let n = ctx.tier.pick(32, 640);
+    let n = ctx.tier.pick(96, 1280);
     search_opts(ctx, lr, "fault", n, scenario(), &check, 6);
 }
 
